@@ -107,7 +107,8 @@ def main(argv=None):
             if not os.path.exists(pf) or (args.name and args.name != sid):
                 continue
             meta = json.load(open(os.path.join(base, sid, "meta.json")))
-            jobs.append((sid, (lambda d, pf=pf: apply_patch(d, pf)), meta.get("breaks", [])))
+            jobs.append((sid, (lambda d, pf=pf: apply_patch(d, pf)),
+                         meta.get("expected_detected_by", meta.get("breaks", []))))
     else:
         from .mutants import MUTANTS
         for m in MUTANTS:
